@@ -2,9 +2,10 @@
 import itertools, json, re
 from fractions import Fraction
 from pcv import core, capio, geo, setbuild
+from pcv.props import c12_region
 
 P = "PcVerif.Props.C12."
-THEOREMS = [P + t for t in ["vtt_settings_arith", "vtt_settings_no_padding", "vtt_align_names", "vtt_settings_verbatim"]]
+THEOREMS = [P + t for t in ["vtt_settings_arith", "vtt_settings_no_padding", "vtt_align_names", "vtt_settings_verbatim", "region_attrs_roundtrip", "region_attrs_roundtrip_exact", "alignment_attrs_roundtrip", "default_alignment_pinned", "layout_gets_own_region"]]
 HAL = [None, "left", "center", "right", "start", "end"]
 VAL = [None, "top", "center", "bottom"]
 PCT = [0, 10, 12.5, 33.33, 50, 80, 16.1, 20.1, 66.1, 70.1]
@@ -206,6 +207,8 @@ def explore(chk):
         if got != want:
             chk.property_failure({"set": desc, "options": opts, "reused_writer": got, "fresh_writer": want, "document_index_on_this_writer": k},
                                  "webvtt: cue settings written by a reused writer object differ from a fresh writer's (layout carried over from an earlier document)")
+    # ---------------- DFXP: one region's attributes, written and read (model correspondence + the property's own wording)
+    c12_region.explore(chk, pycaption)
     # ---------------- DFXP round trip: effective layout per visible character (1-3 languages, each with its own layout or none)
     LANGS = ["en-US", "fr-FR", "de-DE"]
     for _ in range(150 if chk.tier == "quick" else 5000):
